@@ -33,3 +33,49 @@ theorem closed_firstFailure_seen :
     · rw [he] at h1; cases h1
 
 end Rare.C04
+
+namespace Rare.C04
+
+/-! ### a failing stream that is handed over completely: one byte per `Read`, then the failure -/
+
+def byteScript (k w : Nat) : List Step := List.replicate k ⟨1, none⟩ ++ [⟨w, some .fail⟩]
+
+theorem failsFirst_byteScript (k w : Nat) : failsFirst (byteScript k w) = true := by
+  induction k with
+  | zero => rfl
+  | succ k ih => simpa [byteScript, List.replicate_succ, failsFirst] using ih
+
+theorem closed_byteScript (w : Nat) :
+    Closed (fun s => (s.eof = false ∧ ∃ k, s.rd.script = byteScript k w ∧ s.rd.rest.length ≤ k) ∨ s.rd.rest = []) where
+  emitAt := fun s k h => h
+  emitTail := fun s h => h
+  grown := fun s h => by unfold Imm.grown; split <;> exact h
+  read := fun s h he hroom => by
+    dsimp only
+    rcases h with ⟨_, k, hsc, hle⟩ | hr
+    · cases k with
+      | zero =>
+        have hr : s.rd.rest = [] := List.eq_nil_of_length_eq_zero (by omega)
+        simp only [Reader.read, hsc, byteScript, List.replicate_zero, List.nil_append, Imm.recv, Imm.fail, hr]
+        exact Or.inr (by simp)
+      | succ k =>
+        have hsc' : s.rd.script = ⟨1, none⟩ :: byteScript k w := by
+          rw [hsc]; simp [byteScript, List.replicate_succ]
+        simp only [Reader.read, hsc', Imm.recv]
+        refine Or.inl ⟨he, k, rfl, ?_⟩
+        have : min 1 (s.cap - s.buf.length) = 1 := by omega
+        simp only [this, List.length_drop]
+        omega
+    · have e1 : (s.rd.read (s.cap - s.buf.length)).2.2.rest = [] := by
+        unfold Reader.read
+        split
+        · split
+          · exact hr
+          · simp [hr]
+        · simp [hr]
+      generalize s.rd.read (s.cap - s.buf.length) = r at e1
+      split
+      · exact Or.inr e1
+      · exact Or.inr e1
+
+end Rare.C04
